@@ -280,7 +280,8 @@ def describe(tier):
     return {
         "alphabet": "base programs: every accepted 1- and 2-statement sequence of C02's core alphabet (no ORG) with every label binding, " +
                     ("every 3-statement sequence" if tier == "thorough" else "3-statement sequences over a 9-template slice") +
-                    ", README example, cross-reference program, interacting-PCR program; transformations: origin shifts {} from $2000; 4 label "
+                    ", README example, cross-reference program, interacting-PCR program, and families of two and three mutually dependent label,PCR "
+                    "statements (every reference pattern over 5-6 labels x gaps around the 8/16-bit limit) with PC-relative / branch statements appended; transformations: origin shifts {} from $2000; 4 label "
                     "bijections onto names incl. SU XS PCX DPY a1 PCRL CCX; formats {}; every non-ORG statement template of C02 appended".format(SHIFTS, FORMATS),
         "bound": "one transformation per run (the menu is applied exhaustively to every base program)",
         "oracle": "shift: identical sizes, every byte identical except the 16-bit operand of statements that reference an own label absolutely, which "
